@@ -103,3 +103,9 @@ claim("C13",
       "The stored table slices are the reference (their own faithfulness to the streams is C05/C07).",
       "bounded-exhaustive input x configuration enumeration on the real service with a geometric curve-equivalence oracle",
       "DESIGN.md section 4 C13")
+
+claim("C15",
+      "Every multiset of <=2 (quick) / <=3 (thorough) lattice streams containing both kinds (K=4, contribution d/2, latent streams included) x 2 film-coefficient pairs x {default utilities, isothermal utilities beyond the range} through the service with area targeting: balanced composite spans equal, area target finite and positive and equal (1e-6 relative) to an independent Bath-formula reference built from the input streams and the assigned utility duties at real temperatures, capital cost = N(a + b(A/N)^c), annualised cost / capital cost is a capital-recovery factor whose discounted annuities sum to one. The cost functions are additionally swept over a parameter lattice (4 N x 12 (a,b,c) x 3 rates x 4 lives x 5 areas) for the law, the annuity identity and monotonicity in area.",
+      "Reads the EnergyTarget attributes 'Area target', 'Units target', 'Capital cost target', 'Annualised capital cost target' as the property states. The exchanger-count target is only required to be positive (no independent definition is given in the property).",
+      "bounded-exhaustive input x configuration enumeration against an independent closed-form reference",
+      "DESIGN.md section 4 C15")
